@@ -28,7 +28,7 @@ pub trait TSet: Clone + 'static {
     fn merge_same(&mut self, other: Self) -> bool;
     /// merge a delta given in one of the non-receiver representations; None if `kind` does not
     /// apply to this (live,tombs) shape
-    fn merge_delta(&mut self, kind: u8, live: &Items, tombs: &Items) -> Option<bool>;
+    fn merge_delta(&mut self, kind: u8, live: &Items, tombs: &Items, order: &[u64]) -> Option<bool>;
     fn reveal(&self) -> (Items, Items);
 }
 
@@ -42,12 +42,18 @@ macro_rules! tset_u64 {
             fn merge_same(&mut self, other: Self) -> bool {
                 self.merge(other)
             }
-            fn merge_delta(&mut self, kind: u8, live: &Items, tombs: &Items) -> Option<bool> {
+            fn merge_delta(&mut self, kind: u8, live: &Items, tombs: &Items, order: &[u64]) -> Option<bool> {
                 match kind {
                     // Vec-backed delta
+                    // Vec-backed delta, tombstones in the generated (arbitrary) order
                     0 => Some(self.merge(SetUnionWithTombstones::new(
-                        live.iter().copied().collect::<Vec<u64>>(),
-                        tombs.iter().copied().collect::<Vec<u64>>(),
+                        live.iter().rev().copied().collect::<Vec<u64>>(),
+                        order.to_vec(),
+                    ))),
+                    // HashSet-backed delta
+                    4 => Some(self.merge(SetUnionWithTombstones::new(
+                        live.iter().copied().collect::<HashSet<u64>>(),
+                        tombs.iter().copied().collect::<HashSet<u64>>(),
                     ))),
                     // BTreeSet-backed delta
                     1 => Some(self.merge(SetUnionWithTombstones::new(
@@ -111,11 +117,15 @@ impl TSet for SetUnionWithTombstones<HashSet<String>, FstTombstoneSet<String>> {
     fn merge_same(&mut self, other: Self) -> bool {
         self.merge(other)
     }
-    fn merge_delta(&mut self, kind: u8, live: &Items, tombs: &Items) -> Option<bool> {
+    fn merge_delta(&mut self, kind: u8, live: &Items, tombs: &Items, order: &[u64]) -> Option<bool> {
         match kind {
             0 => Some(self.merge(SetUnionWithTombstones::new(
-                live.iter().map(|x| s(*x)).collect::<Vec<String>>(),
-                tombs.iter().map(|x| s(*x)).collect::<Vec<String>>(),
+                live.iter().rev().map(|x| s(*x)).collect::<Vec<String>>(),
+                order.iter().map(|x| s(*x)).collect::<Vec<String>>(),
+            ))),
+            4 => Some(self.merge(SetUnionWithTombstones::new(
+                live.iter().map(|x| s(*x)).collect::<HashSet<String>>(),
+                tombs.iter().map(|x| s(*x)).collect::<HashSet<String>>(),
             ))),
             1 => Some(self.merge(SetUnionWithTombstones::new(
                 live.iter().map(|x| s(*x)).collect::<BTreeSet<String>>(),
@@ -145,7 +155,7 @@ pub trait TMap: Clone + 'static {
     const NAME: &'static str;
     fn build(live: &Live, tombs: &Items) -> Self;
     fn merge_same(&mut self, other: Self) -> bool;
-    fn merge_delta(&mut self, kind: u8, live: &Live, tombs: &Items) -> Option<bool>;
+    fn merge_delta(&mut self, kind: u8, live: &Live, tombs: &Items, order: &[u64]) -> Option<bool>;
     fn reveal(&self) -> (Live, Items);
 }
 
@@ -162,7 +172,7 @@ macro_rules! tmap_u64 {
             fn merge_same(&mut self, other: Self) -> bool {
                 self.merge(other)
             }
-            fn merge_delta(&mut self, kind: u8, live: &Live, tombs: &Items) -> Option<bool> {
+            fn merge_delta(&mut self, kind: u8, live: &Live, tombs: &Items, order: &[u64]) -> Option<bool> {
                 match kind {
                     0 => Some(self.merge(MapUnionWithTombstones::new(
                         live.iter().map(|(k, v)| (*k, Max::new(*v))).collect::<BTreeMap<u64, Max<u8>>>(),
@@ -175,6 +185,15 @@ macro_rules! tmap_u64 {
                             EmptySet::<u64>::default(),
                         )))
                     }
+                    // hash map + Vec of tombstones in the generated (arbitrary) order
+                    3 => Some(self.merge(MapUnionWithTombstones::new(
+                        live.iter().map(|(k, v)| (*k, Max::new(*v))).collect::<HashMap<u64, Max<u8>>>(),
+                        order.to_vec(),
+                    ))),
+                    4 => Some(self.merge(MapUnionWithTombstones::new(
+                        live.iter().map(|(k, v)| (*k, Max::new(*v))).collect::<HashMap<u64, Max<u8>>>(),
+                        tombs.iter().copied().collect::<HashSet<u64>>(),
+                    ))),
                     2 if live.is_empty() && tombs.len() == 1 => Some(self.merge(MapUnionWithTombstones::new(
                         EmptyMap::<u64, Max<u8>>::default(),
                         SingletonSet(*tombs.iter().next().unwrap()),
@@ -216,7 +235,7 @@ impl TMap for MapUnionWithTombstones<HashMap<String, Max<u8>>, FstTombstoneSet<S
     fn merge_same(&mut self, other: Self) -> bool {
         self.merge(other)
     }
-    fn merge_delta(&mut self, kind: u8, live: &Live, tombs: &Items) -> Option<bool> {
+    fn merge_delta(&mut self, kind: u8, live: &Live, tombs: &Items, order: &[u64]) -> Option<bool> {
         match kind {
             0 => Some(self.merge(MapUnionWithTombstones::new(
                 live.iter().map(|(k, v)| (s(*k), Max::new(*v))).collect::<BTreeMap<String, Max<u8>>>(),
@@ -225,6 +244,10 @@ impl TMap for MapUnionWithTombstones<HashMap<String, Max<u8>>, FstTombstoneSet<S
             2 if live.is_empty() && tombs.len() == 1 => Some(self.merge(MapUnionWithTombstones::new(
                 EmptyMap::<String, Max<u8>>::default(),
                 SingletonSet(s(*tombs.iter().next().unwrap())),
+            ))),
+            3 => Some(self.merge(MapUnionWithTombstones::new(
+                live.iter().map(|(k, v)| (s(*k), Max::new(*v))).collect::<HashMap<String, Max<u8>>>(),
+                order.iter().map(|x| s(*x)).collect::<Vec<String>>(),
             ))),
             _ => None,
         }
@@ -268,6 +291,12 @@ fn norm(r: &Replica, keep_overlap: bool) -> (Live, Items) {
         live.retain(|k, _| !tombs.contains(k));
     }
     (live, tombs)
+}
+
+/// the replica's tombstones, duplicate-free, in the order they were generated
+fn tomb_order(r: &Replica) -> Vec<u64> {
+    let mut seen = Items::new();
+    r.tombs.iter().map(|x| *x as u64).filter(|x| seen.insert(*x)).collect()
 }
 
 fn perms(n: usize) -> Vec<Vec<usize>> {
@@ -341,7 +370,7 @@ fn run_set<B: TSet>(case: &TCase) -> Result<(Items, Items), Fail> {
             let (l, t) = norm(r, case.overlap_delta);
             let lk: Items = l.keys().copied().collect();
             let used_delta = if case.delta_kind != 255 {
-                guard("merge", name, || acc.merge_delta(case.delta_kind, &lk, &t))?
+                guard("merge", name, || acc.merge_delta(case.delta_kind, &lk, &t, &tomb_order(r)))?
             } else {
                 None
             };
@@ -419,7 +448,7 @@ fn run_map<B: TMap>(case: &TCase) -> Result<(Live, Items), Fail> {
             let r = &case.replicas[i];
             let (l, t) = norm(r, case.overlap_delta);
             let used_delta = if case.delta_kind != 255 {
-                guard("merge", name, || acc.merge_delta(case.delta_kind, &l, &t))?
+                guard("merge", name, || acc.merge_delta(case.delta_kind, &l, &t, &tomb_order(r)))?
             } else {
                 None
             };
@@ -521,13 +550,18 @@ pub fn c05(ctx: &mut Ctx, w: &Work) {
                     _ => {}
                 }
             }
+            if tombs.len() == 2 {
+                let mut rev = tombs.clone();
+                rev.reverse();
+                states.push(Replica { live: live.clone(), tombs: rev });
+            }
             states.push(Replica { live, tombs });
         }
     }
     let mut cases = vec![];
     for a in &states {
         for b in &states {
-            for dk in [255u8, 0, 1, 2, 3] {
+            for dk in [255u8, 0, 1, 2, 3, 4] {
                 cases.push(TCase {
                     replicas: vec![a.clone(), b.clone()],
                     delta_kind: dk,
@@ -546,7 +580,7 @@ pub fn c05(ctx: &mut Ctx, w: &Work) {
     ctx.check_all("replicas-small", cases, body);
     let strat = (
         prop::collection::vec(replica_strat(5), 2..5),
-        prop_oneof![Just(255u8), 0u8..4],
+        prop_oneof![Just(255u8), 0u8..5],
         any::<bool>(),
     )
         .prop_map(|(replicas, delta_kind, overlap_delta)| TCase {
@@ -573,7 +607,7 @@ pub fn c02_flags(ctx: &mut Ctx, w: &Work) {
         let lk: Items = l.keys().copied().collect();
         let dlk: Items = dl.keys().copied().collect();
         let mut acc = B::build(&lk, &t);
-        let flag = match guard("merge", B::NAME, || acc.merge_delta(c.delta_kind, &dlk, &dt))? {
+        let flag = match guard("merge", B::NAME, || acc.merge_delta(c.delta_kind, &dlk, &dt, &tomb_order(&c.delta)))? {
             Some(f) => f,
             None => {
                 let o = B::build(&dlk, &dt);
@@ -595,7 +629,7 @@ pub fn c02_flags(ctx: &mut Ctx, w: &Work) {
         let (l, t) = norm(&c.recv, false);
         let (dl, dt) = norm(&c.delta, false);
         let mut acc = B::build(&l, &t);
-        let flag = match guard("merge", B::NAME, || acc.merge_delta(c.delta_kind, &dl, &dt))? {
+        let flag = match guard("merge", B::NAME, || acc.merge_delta(c.delta_kind, &dl, &dt, &tomb_order(&c.delta)))? {
             Some(f) => f,
             None => {
                 let o = B::build(&dl, &dt);
@@ -637,7 +671,7 @@ pub fn c02_flags(ctx: &mut Ctx, w: &Work) {
         );
         Ok(())
     };
-    let strat = (replica_strat(4), replica_strat(4), prop_oneof![Just(255u8), 0u8..4])
+    let strat = (replica_strat(4), replica_strat(4), prop_oneof![Just(255u8), 0u8..5])
         .prop_map(|(recv, delta, delta_kind)| FlagCase { recv, delta, delta_kind });
     ctx.check("flag-random/tombstone-backends", w.random_cases * 3, strat, body);
 }
